@@ -13,6 +13,7 @@
 """
 from __future__ import annotations
 
+import asyncio
 import copy
 import json
 import string
@@ -93,7 +94,7 @@ def replay(ctx, scn, seed, region_mode):
             if st["a"] == "login":
                 events.append({"ev": "call", "op": "login", "udpid": [], "list": []})
                 try:
-                    await cloud.login()
+                    await asyncio.wait_for(cloud.login(), 600)
                     events.append({"ev": "ret", "r": "ok", "token": [], "key": []})
                 except CloudError:
                     events.append({"ev": "ret", "r": "cloud_error", "token": [], "key": []})
@@ -106,7 +107,7 @@ def replay(ctx, scn, seed, region_mode):
                 events.append({"ev": "call", "op": "tok", "udpid": B(udpid.encode()),
                                "list": [{"udpId": B(e["udpId"].encode()), "token": B(e["token"].encode()), "key": B(e["key"].encode())} for e in lst]})
                 try:
-                    t, key = await cloud.get_token(udpid)
+                    t, key = await asyncio.wait_for(cloud.get_token(udpid), 600)       # (a call that never returns is an outcome, too: TimeoutError here)
                     events.append({"ev": "ret", "r": "ok", "token": B(str(t).encode()), "key": B(str(key).encode())})
                 except CloudError:
                     events.append({"ev": "ret", "r": "cloud_error", "token": [], "key": []})
@@ -187,7 +188,66 @@ def auto_connect_runs(ctx):
     traces += region_sequence_runs(ctx)
     traces += auto_connect_fault_runs(ctx)
     traces += concurrent_token_runs(ctx)
+    traces += multi_device_runs(ctx)
     return n, bad, traces
+
+
+def multi_device_runs(ctx):
+    """ONE Discover.discover(auto_connect=True) answered by two or three V3 units while the cloud is slow and keeps one live session per account: every
+    unit ends up authenticated with the credentials registered for it."""
+    from msmart.device import AirConditioner
+    rng = ctx.rng
+    out = []
+    for k in range(ctx.pick(6, 60)):
+        n = rng.choice([2, 3])
+        account, password = rand_text(rng, 12), rand_text(rng, 10)
+        srv = cloudsrv.ModelCloud(account, password, rng=rng)
+        srv.single_session = True
+        srv.delay = rng.choice([0.3, 0.8])
+        units, plan, regs = [], [], {}
+        for j in range(n):
+            ident = rand_identity(rng, typ=0xAC, port=6444 + j, devid=rng.getrandbits(48) | 1)
+            ip = "10.6.%d.%d" % (k % 250, j + 1)
+            tok, key = rng.randbytes(64), rng.randbytes(32)
+            endian = rng.choice(["little", "big"])
+            regs[landev.udpid(ident["devid"].to_bytes(6, endian)).hex()] = (tok, key)
+            units.append((ident, ip, tok, key))
+            plan.append((0.2 + 0.05 * j, ip, 6445, build(rng, ident, ip, 3)))
+        junk_tok, junk_key = rng.randbytes(64).hex(), rng.randbytes(32).hex()
+        srv.token_for = lambda u, regs=regs: [{"udpId": u, "token": regs[u][0].hex(), "key": regs[u][1].hex()}] if u in regs else [{"udpId": u, "token": junk_tok, "key": junk_key}]
+
+        def tcp(loop, net, units=units, k=k):
+            # one appliance per address behind the simulated network: the LanDevice answers on whatever connection reaches it, told apart by the token
+            devs = [landev.LanDevice(loop, net, acdev.ACModel(), version=3, token=t, key=ky, seed=k * 10 + j) for j, (_, _, t, ky) in enumerate(units)]
+            first = devs[0]
+            orig = [d.on_bytes for d in devs]
+
+            def on_bytes(tr, data):
+                # route by the token carried in handshake requests; data packets go to the device that owns the connection
+                owner = getattr(tr, "_owner", None)
+                if owner is None and len(data) > 8 and data[5] & 0xF == 0:
+                    for d in devs:
+                        if data[8:] == d.token:
+                            owner = d
+                            tr._owner = d
+                            break
+                (owner or first).on_bytes(tr, data) if False else (orig[devs.index(owner)] if owner else orig[0])(tr, data)
+            net.on_bytes = on_bytes
+
+            def on_connect(tr):
+                for d in devs:
+                    d.on_connect(tr)
+            net.on_connect = on_connect
+        v = disc.run_discovery(plan, auto_connect=True, tcp_devices=tcp, cloud_client=srv.client, account=account, password=password, timeout=3)
+        devs = v.pop("devices", [])
+        evs = []
+        for ident, ip, tok, key in units:
+            d0 = next((d for d in devs if str(d.ip) == ip), None)
+            evs.append({"ev": "e2e", "exc": v["exc"], "found": bool(d0 is not None and isinstance(d0, AirConditioner)),
+                        "dev_token": B(bytes.fromhex(d0.token)) if d0 is not None and d0.token else [], "dev_key": B(bytes.fromhex(d0.key)) if d0 is not None and d0.key else [],
+                        "reg_token": B(tok), "reg_key": B(key), "online": bool(d0 is not None and d0.online), "endian": "", "faults": []})
+        out.append({"account": B(account.encode()), "password": B(password.encode()), "events": evs, "scn": [("multi_device_auto_connect", n)], "region_mode": False})
+    return out
 
 
 def concurrent_token_runs(ctx):
